@@ -7,7 +7,9 @@ RULE = ("MC_Utf8: all byte strings over UTF-8 class representatives x all chunki
         "L0 Lossy (Table 3-7, maximal subparts); every explored input is replayed on the real Utf8LossyDecoder under "
         "ALL its chunkings; seeded random byte strings x random chunkings; MC_LossyWrapper: decode_to_sink loop over "
         "every abstract encoding_rs decoder script; LossyDecoder runs over all 40 encodings judged against the logged "
-        "one-shot decode, loop iterations (hook H5) checked against the L1 loop protocol.")
+        "one-shot decode, loop iterations (hook H5) checked against the L1 loop protocol.  Tree clause: real parses of "
+        "byte streams through from_utf8() under byte-level chunkings are judged by the L0 parser applied to L0 Lossy of "
+        "the concatenated bytes (Trace_Parse).")
 
 
 def classify(f, objs):
@@ -22,7 +24,10 @@ def run(tier, seed, replay=None):
         src = os.path.join(WORK, "traces", "C10-replay-in.ndjson")
         with open(src, "w") as f:
             f.write("\n".join(lines) + "\n")
-        if meta.get("spec", "").startswith("Trace_Enc"):
+        if meta.get("spec", "").startswith("Trace_Parse"):
+            r.gen_validate("replay", ["parse", "--replay", "--c02"], "Trace_Parse.tla", "Trace_Parse.cfg", 1, classify, core.count_lines,
+                           stdin_files=[src])
+        elif meta.get("spec", "").startswith("Trace_Enc"):
             r.gen_validate("replay", ["enc", "--replay"], "Trace_Enc.tla", "Trace_Enc.cfg", 1, classify, core.count_lines, stdin_files=[src])
         else:
             r.gen_validate("replay", ["utf8", "--replay"], "Trace_Utf8.tla", "Trace_Utf8.cfg", 1, classify, core.count_lines, stdin_files=[src])
@@ -45,6 +50,10 @@ def run(tier, seed, replay=None):
                    classify, core.count_lines)
     r.gen_validate("encoding_rs", ["enc", "--n", 25 if quick else 400, "--short"], "Trace_Enc.tla", "Trace_Enc.cfg", core.NCPU,
                    classify, core.count_lines)
+    # tree clause: bytes (markup soup with ill-formed sequences spliced in) fed through parse_document(..).from_utf8() in one
+    # piece, byte by byte and under random cuts; TLC decodes the concatenated bytes with L0 Lossy and runs the L0 parser
+    r.gen_validate("from_utf8-tree", ["parse", "--c02", "--mode", "bytes", "--n", 400 if quick else 8000, "--maxpieces", 10],
+                   "Trace_Parse.tla", "Trace_Parse.cfg", core.NCPU, classify, core.count_lines, timeout=5000, xmx="4g")
     r.assumptions = ["encoding_rs's conversion tables are an input to the specification: the one-shot decode logged by the "
                      "harness (Encoding::decode, or decode_without_bom_handling for the UTF-8 route which does no BOM "
                      "handling) is the property's own oracle",
